@@ -437,6 +437,16 @@ KD_SIGNATURE = {
     "borrow-per-connection": ("C08", "pubsub:max-borrowed-per-connection-not-per-subscriber",
                               "a receive succeeds although the subscriber already holds subscriber_max_borrowed_samples "
                               "samples (the limit is enforced per publisher connection, not per subscriber)"),
+    "stale-connection-key": ("C01", "pubsub:healthy-connection-dropped:stale-connection-key-after-failed-attach",
+                             "a connection fault with one publisher disturbs another pair: after a publisher the subscriber was "
+                             "attached to left and the subscriber's attach to its successor failed, the subscriber's connection "
+                             "table keeps a stale slot-map key; later updates drop the connection to a HEALTHY publisher (samples "
+                             "counted as delivered are never received)"),
+    "expired-buffer-panic": ("C08", "pubsub:expired-connection-buffer-panic-after-over-borrow",
+                             "the process aborts (fatal_panic 'Expired connection buffer exceeded ... still borrowed') in a "
+                             "connection update of a subscriber that holds samples of more vanished publishers than its "
+                             "expired-connection buffer has entries - reachable because subscriber_max_borrowed_samples is "
+                             "enforced per connection"),
 }
 _re_kdpath = re.compile(r'<<"KD_PATH", (\d+), \{([^}]*)\}>>')
 
@@ -1038,7 +1048,7 @@ def conc_jobs(quick):
             # longer phases, two preemptions
             pub2 = [{"a": "send", "p": 1, "id": 0}, {"a": "loan", "p": 1}, {"a": "send", "p": 1, "id": 0}, {"a": "probe", "p": 1}]
             sub2 = sub + _take(1, 1) + [{"a": "has", "s": 1}]
-            jobs.append({"cfg": q, "pre": pre, "pub": pub2, "sub": sub2, "post": post, "bound": 2, "runs": 3000})
+            jobs.append({"cfg": q, "pre": pre, "pub": pub2, "sub": sub2, "post": post, "bound": 2, "runs": 600})
     return jobs
 
 
@@ -1076,7 +1086,7 @@ def concurrent_phase(ctx, pid, mode_extra=None):
     for mode in ("dfs",) + tuple(mode_extra):
         jp = os.path.join(d, f"conc-{mode}.jobs.json")
         out = os.path.join(d, f"conc-{mode}.raw.ndjson")
-        js = jobs if mode == "dfs" else [dict(j, runs=60 if ctx.quick else 400) for j in jobs]
+        js = jobs if mode == "dfs" else [dict(j, runs=60 if ctx.quick else 150) for j in jobs]
         with open(jp, "w") as f:
             json.dump(js, f)
         _, so, _ = vp.run_driver(DRIVER, ["conc", "--work", d, "--jobs", jp, "--out", out, "--mode", mode], timeout=3000)
@@ -1121,6 +1131,30 @@ def concurrent_phase(ctx, pid, mode_extra=None):
                     raise vp.ToolError("binding self-test failed: corrupted concurrent execution was accepted")
                 ctx.coverage.setdefault("selftest", {})["conc_recipients_changed"] = {"rejected_at_record": v.pos}
                 break
+
+
+def over_borrow_panic_jobs(variants):
+    """The shortest history of the known finding pubsub:expired-connection-buffer-panic-after-over-borrow (a
+    consequence of the per-connection borrow limit); executed in every run so that the finding is re-observed
+    deterministically and not only when the seeded generator happens to reach it."""
+    q = qos(maxpubs=2, maxsubs=1, bufmax=1, hist=0, borrow=1, loan=1, overflow=True, expbuf=1)
+    prog = [{"a": "create_sub", "s": 1, "buf": 1, "req": 0}, {"a": "create_pub", "p": 1}, {"a": "create_pub", "p": 2}]
+    prog += _send(1) + _send(2) + [{"a": "recv", "s": 1}, {"a": "recv", "s": 1}, {"a": "drop_pub", "p": 1}, {"a": "drop_pub", "p": 2},
+                                   {"a": "update_sub", "s": 1}, {"a": "has", "s": 1}]
+    return [{"cfg": dict(q, payload=v[0], variant=v[1]), "program": prog} for v in variants[:2]]
+
+
+def stale_key_jobs(variants):
+    """The shortest history found for the known finding pubsub:healthy-connection-dropped:stale-connection-key-after-failed-attach
+    (executed in every run so that the finding is re-observed deterministically)."""
+    q = qos(maxpubs=3, maxsubs=1, bufmax=2, hist=0, borrow=2, loan=1, overflow=False)
+    u = [{"a": "update_sub", "s": 1}]
+    prog = [{"a": "create_sub", "s": 1, "buf": 2, "req": 0}, {"a": "create_pub", "p": 1}, {"a": "create_pub", "p": 2}] + u
+    prog += [{"a": "drop_pub", "p": 2}, {"a": "create_pub", "p": 3}, {"a": "break_seg", "p": 3}] + u
+    prog += [{"a": "drop_pub", "p": 1}] + u + [{"a": "create_pub", "p": 4}, {"a": "create_pub", "p": 5}] + u
+    prog += _send(5) + [{"a": "drop_pub", "p": 4}] + u + _take(1, 1) + [{"a": "recv", "s": 1}]
+    prog += _send(5) + [{"a": "has", "s": 1}, {"a": "recv", "s": 1}] + _send(5) + [{"a": "recv", "s": 1}]
+    return [{"cfg": dict(q, payload=v[0], variant=v[1]), "program": prog} for v in variants[:2]]
 
 
 def regen_witnesses():
